@@ -38,9 +38,7 @@ func (f *clientHeartBeatProcessor) Process(ctx context.Context, rpcMessage messa
 			log.Debug("received PONG from {}", ctx)
 		}
 	}
-	msgFuture := getty.GetGettyRemotingClient().GetMessageFuture(rpcMessage.ID)
-	if msgFuture != nil {
-		getty.GetGettyRemotingClient().RemoveMessageFuture(rpcMessage.ID)
-	}
+	// heartbeats are numbered by the listener's own counter and never get a pending future: a future
+	// found under the PONG's id belongs to an unrelated request and must stay where it is
 	return nil
 }
